@@ -214,6 +214,7 @@ func cmdCheck(args []string) int {
 	}
 	exit := 0
 	nviol := 0
+	unconfirmed := 0
 	for i, f := range fresh {
 		if i >= 4 {
 			fmt.Printf("(further distinct violations not minimised: class=%s sig=%s)\n", f.wv.Viol.Class, f.wv.Viol.Sig)
@@ -221,8 +222,12 @@ func cmdCheck(args []string) int {
 		}
 		path, v, ok := minimiseAndConfirm(f)
 		if !ok {
-			fmt.Fprintf(os.Stderr, "ruxsim: a violation of %s (class %s, run %d) did not reproduce in a fresh process; treating as infrastructure failure\n%s\n", *prop, f.wv.Viol.Class, f.wv.Run, f.wv.Viol.Detail)
-			return 2
+			// found by a worker that had executed other runs before, but not by a fresh process executing
+			// this scenario alone: the tree keeps state across requests of different routers (or the harness is
+			// at fault). Never a verdict by itself; exit 2 unless another violation is confirmed.
+			fmt.Fprintf(os.Stderr, "ruxsim: a violation of %s (class %s, run %d) did not reproduce in a fresh process\n%s\n", *prop, f.wv.Viol.Class, f.wv.Run, f.wv.Viol.Detail)
+			unconfirmed++
+			continue
 		}
 		nviol++
 		exit = 1
@@ -230,6 +235,10 @@ func cmdCheck(args []string) int {
 		fmt.Printf("VIOLATION property=%s replay=%s\n", *prop, path)
 	}
 	writeEvidence(*prop, *tier, *seed, aggs, nviol, knownHit, time.Since(start).Seconds())
+	if exit == 0 && unconfirmed > 0 {
+		fmt.Fprintln(os.Stderr, "ruxsim: no violation could be confirmed in a fresh process; treating the unconfirmed reports as infrastructure failure")
+		return 2
+	}
 	return exit
 }
 
@@ -589,21 +598,21 @@ func writeEvidence(prop, tier string, seed uint64, aggs []*profAgg, nviol int, k
 		"wall_s":      wall,
 		"violations":  nviol,
 		"coverage": map[string]any{
-			"evaluations":         evals,
-			"distinct_nontrivial": distinct,
-			"rule": "every evaluation is one deterministic simulated run = G(profile, seed, run index); runs are counted distinct by the hash of (scenario without seed bookkeeping, executed interleaving); non-trivial per profile: " + strings.Join(rules, " || "),
-			"samples":                 samples,
-			"states":                  states,
-			"scheduler_steps_total":   steps,
-			"simulated_time_note":     "the router core has no clock; simulated time is counted in scheduler steps",
-			"runs_per_hour":           float64(evals) / wall * 3600,
-			"seeds":                   seedList(aggs, seed),
-			"faults_fired_total":      faultTotal,
-			"profiles":                pe,
-			"known_findings_matched":  kh,
-			"components_real":         []string{"package rux: router, matcher, dispatch, Context, handler-chain cursor, responseWriter wrapper, LRU route cache", "container/list", "regexp", "sync.RWMutex", "net/http helpers called by rux (http.Error, NotFound, Redirect)"},
-			"components_stubbed":      []string{"net/http server and its goroutines (simulated clients)", "underlying http.ResponseWriter (recording, fault-injecting SimWriter)", "user handlers (scripted harness handlers)", "sync.Pool choice (simulated free list behind the verif pool hook)", "map iteration order at Resource and findAllowedMethods (seeded permutation)"},
-			"exhaustive":              false,
+			"evaluations":            evals,
+			"distinct_nontrivial":    distinct,
+			"rule":                   "every evaluation is one deterministic simulated run = G(profile, seed, run index); runs are counted distinct by the hash of (scenario without seed bookkeeping, executed interleaving); non-trivial per profile: " + strings.Join(rules, " || "),
+			"samples":                samples,
+			"states":                 states,
+			"scheduler_steps_total":  steps,
+			"simulated_time_note":    "the router core has no clock; simulated time is counted in scheduler steps",
+			"runs_per_hour":          float64(evals) / wall * 3600,
+			"seeds":                  seedList(aggs, seed),
+			"faults_fired_total":     faultTotal,
+			"profiles":               pe,
+			"known_findings_matched": kh,
+			"components_real":        []string{"package rux: router, matcher, dispatch, Context, handler-chain cursor, responseWriter wrapper, LRU route cache", "container/list", "regexp", "sync.RWMutex", "net/http helpers called by rux (http.Error, NotFound, Redirect)"},
+			"components_stubbed":     []string{"net/http server and its goroutines (simulated clients)", "underlying http.ResponseWriter (recording, fault-injecting SimWriter)", "user handlers (scripted harness handlers)", "sync.Pool choice (simulated free list behind the verif pool hook)", "map iteration order at Resource and findAllowedMethods (seeded permutation)"},
+			"exhaustive":             false,
 		},
 		"assumptions": []string{
 			"interleavings are explored at yield sites only (harness handler boundaries, writer calls, verif-tagged sites in rux); between two sites a task runs alone",
